@@ -10,7 +10,13 @@ for f in os.listdir(src):
     if f.endswith(".log"):
         continue
     shutil.copy(os.path.join(src, f), os.path.join(dst, f))
+ported = os.environ.get("PORTED")
+if ported:
+    shutil.copy(os.path.join(dst, "patch.diff"), os.path.join(dst, "patch_against_pristine_9dff185.diff"))
+    shutil.copy(ported, os.path.join(dst, "patch.diff"))
 meta = json.load(open(os.path.join(src, "meta.json")))
+if ported:
+    meta["patch_note"] = "patch.diff is the same change ported onto the current /repo HEAD (the original, against the pristine snapshot, conflicts with a fix: commit); the original is kept as patch_against_pristine_9dff185.diff"
 v = {}
 vp = "/tmp/mut/verify/%s-%s.json" % (id_, n)
 if os.path.exists(vp):
